@@ -2838,34 +2838,55 @@ def check_buffer_moves(ctx, tu):
         f = fs[0]
         g = tu.cfg(f)
         src = f['params'][0]['id'] if f.get('params') else None
-        transfers, resyncs = [], []
-        for b, i, x in g.stmts():
-            if x.get('kind') == 'CallExpr' and tu.sd(x).get('q') in ('std::move', 'std::swap', 'std::exchange'):
-                for a in tu.call_parts(x)[2]:
-                    a0 = tu.strip(a, casts=True)
-                    if a0 is not None and a0.get('kind') == 'MemberExpr' and tu.kids(a0) and tu.ref_decl(tu.kids(a0)[0]) == src:
-                        transfers.append((b.id, i, x))
-            if x.get('kind') == 'CXXMemberCallExpr':
-                sd, obj, args = tu.call_parts(x)
-                nm = sd.get('q', '').split('::')[-1]
-                if obj is not None and tu.ref_decl(obj) == src and nm in ('reset', 'setPtr', 'resize', 'clear'):
-                    resyncs.append((b.id, i, x))
-                o0 = tu.strip(obj) if obj is not None else None
-                if nm == 'swap' and ((o0 is not None and o0.get('kind') == 'MemberExpr' and tu.kids(o0) and tu.ref_decl(tu.kids(o0)[0]) == src)
-                                     or any(tu.strip(a, casts=True).get('kind') == 'MemberExpr' and tu.kids(tu.strip(a, casts=True)) and
-                                            tu.ref_decl(tu.kids(tu.strip(a, casts=True))[0]) == src for a in args)):
-                    transfers.append((b.id, i, x))
-        # initialisers (dataBuf(std::move(other.dataBuf))) are CFG 'I' elements
-        for b in g.blocks.values():
-            for i, e in enumerate(b.el):
-                if e[0] == 'I' and e[2] is not None:
-                    init = tu.node(e[1])
-                    for x in (tu.walk(init) if init is not None else ()):
-                        if x.get('kind') == 'CallExpr' and tu.sd(x).get('q') == 'std::move':
-                            a0 = tu.strip(tu.call_parts(x)[2][0], casts=True)
-                            if a0 is not None and a0.get('kind') == 'MemberExpr' and tu.kids(a0) and tu.ref_decl(tu.kids(a0)[0]) == src:
-                                if not any(t[2]['id'] == x['id'] for t in transfers):
-                                    transfers.append((b.id, i, x))
+
+        def scan(fn, srcid, depth=0):
+            """(transfers, resyncs, handled) of fn w.r.t. the source object srcid; helper members of the same class that
+            receive the source are analysed on their own: a helper that takes the storage and re-synchronises the
+            source itself is `handled`; one that leaves the source stale counts as a transfer at the call"""
+            g_ = tu.cfg(fn)
+            tr, rs, handled = [], [], []
+
+            def of_src(e):
+                a0 = tu.strip(e, casts=True)
+                return a0 is not None and a0.get('kind') == 'MemberExpr' and tu.kids(a0) and tu.ref_decl(tu.kids(a0)[0]) == srcid
+
+            for b, i_, x in g_.stmts():
+                if x.get('kind') == 'CallExpr' and tu.sd(x).get('q') in ('std::move', 'std::swap', 'std::exchange'):
+                    if any(of_src(a) for a in tu.call_parts(x)[2]):
+                        tr.append((b.id, i_, x))
+                if x.get('kind') == 'CXXMemberCallExpr':
+                    sd, obj, args = tu.call_parts(x)
+                    nm = sd.get('q', '').split('::')[-1]
+                    if obj is not None and tu.ref_decl(obj) == srcid and nm in ('reset', 'setPtr', 'resize', 'clear'):
+                        rs.append((b.id, i_, x))
+                    if nm == 'swap' and ((obj is not None and of_src(obj)) or any(of_src(a) for a in args)):
+                        tr.append((b.id, i_, x))
+                    callee = tu.callee_fn(x)
+                    pos = [k_ for k_, a in enumerate(args) if tu.ref_decl(tu.strip(a, casts=True)) == srcid]
+                    if callee is not None and callee.get('rect') == fn.get('rect') and tu.cfg(callee) is not None and pos and \
+                            depth < 3 and pos[0] < len(callee.get('params', [])) and obj is not None and tu.is_this(obj):
+                        t2, r2, h2 = scan(callee, callee['params'][pos[0]]['id'], depth + 1)
+                        g2 = tu.cfg(callee)
+                        stale = [t for t in t2 if not any(g2.postdominates((rb, ri), (t[0], t[1])) for rb, ri, rx in r2)]
+                        if stale:
+                            tr.append((b.id, i_, x))
+                        elif t2 or h2:
+                            handled.append((b.id, i_, x))
+            for b in g_.blocks.values():
+                for i_, e in enumerate(b.el):
+                    if e[0] == 'I' and e[2] is not None:
+                        init = tu.node(e[1])
+                        for x in (tu.walk(init) if init is not None else ()):
+                            if x.get('kind') == 'CallExpr' and tu.sd(x).get('q') == 'std::move' and of_src(tu.call_parts(x)[2][0]):
+                                if not any(t[2]['id'] == x['id'] for t in tr):
+                                    tr.append((b.id, i_, x))
+            return tr, rs, handled
+
+        transfers, resyncs, handled = scan(f, src)
+        if not transfers and handled:
+            ctx.ok(R, inst, 'hands the source to %s, which takes over the storage and re-synchronises the source'
+                   % tu.sd(handled[0][2]).get('q', '').split('::')[-1], tu.fn_loc(f))
+            continue
         if not transfers:
             ctx.undecided(R, inst, 'user-provided %s in which no transfer of a member of the source is recognised' % label, tu.fn_loc(f))
             continue
